@@ -201,6 +201,7 @@ def run(ctx, crate):
     rule_commit_on_success(ctx, crate)
     rule_io_no_retry(ctx, crate)
     rule_screen_model_no_panic(ctx, crate)
+    rule_ok_means_attempted(ctx, crate)
     # a hand-over of rows between the two counters (Clear/Keep + the matching zombie_lines_count store) completes on every
     # exit, the error exits of the terminal calls included: a failure in between leaves rows owned twice
     from .c03 import rule_row_transfer_pairing
@@ -444,6 +445,67 @@ def rule_commit_on_success(ctx, crate, rule="R-DRAW-COMMIT-ON-SUCCESS"):
                       "row-count store is dominated by the success edge of flush()? and is the last fallible step",
                       "row count committed %s" % ("on a path that has not passed a successful flush" if not dom else "before a later fallible terminal call"), cfg)
     ctx.floor(rule, n, 1, cfg, "row-count commit stores in the emitter")
+
+
+REFUSALS = (r"draw_target::ProgressDrawTarget::\w+", r"draw_target::TargetKind::\w+", r"std::thread::panicking", r"draw_target::RateLimiter::allow",
+            r"multi::MultiState::(width|is_hidden)", r"draw_target::Drawable::<'_>::\w+")
+BOOKKEEPING_ADTS = ("multi::MultiState", "multi::MultiStateMember", "state::BarState", "state::ProgressState", "draw_target::DrawState")
+
+
+def rule_ok_means_attempted(ctx, crate, rule="R-IO-OK-MEANS-ATTEMPTED"):
+    """"explicit io::Result-returning calls report the error": an `Ok(())` that such a function produces itself (rather than
+    handing on the result of the operation it wraps) is produced either *after* a fallible terminal operation was attempted on that
+    path, or because the draw target refused the draw (hidden / not a terminal / rate limited / panicking) - never because the
+    library's own bookkeeping says "nothing to do". The bookkeeping is exactly what goes stale when an earlier draw failed: the row
+    count still holds lines the slot table no longer knows, and a `clear()` that skips the terminal when `members` is empty answers
+    Ok on a dead terminal and leaves the stale line (seed C18k)."""
+    cfg = crate.config
+    n = 0
+    for b in K.lib_bodies(crate):
+        if b.file in K.TEST_DOUBLE_FILES or not K.is_plain_io_result(b.locals[0]):
+            continue
+        attempts = [k for k in b.calls() if not k.dest["p"] and K.is_plain_io_result(b.locals[k.dest["l"]])
+                    and not k.matches(K.TRY_BRANCH, K.FROM_RESIDUAL, r"std::result::Result::<T, E>::.*")]
+        # locals that flow into the return place
+        ret_ls, work = {0}, [0]
+        while work:
+            x = work.pop()
+            for d in b.defs().get(x, ()):
+                if d["kind"] == "assign" and d["rv"]["k"] == "use" and d["rv"]["op"].get("k") in ("copy", "move") and not d["rv"]["op"]["place"]["p"]:
+                    y = d["rv"]["op"]["place"]["l"]
+                    if y not in ret_ls:
+                        ret_ls.add(y)
+                        work.append(y)
+        for i, j, st in b.assigns():
+            rv = st["rv"]
+            if not (rv["k"] == "agg" and rv.get("ak") == "adt" and rv.get("adt") == "std::result::Result" and rv.get("variant") == "Ok"
+                    and st["lhs"]["l"] in ret_ls and not st["lhs"]["p"]):
+                continue
+            n += 1
+            attempted = any(b.dominates(k.bb, i) and k.bb != i for k in attempts)
+            refused, why = False, []
+            for sb, t in b.switches():
+                if not any(b.edge_dominates((sb, x), i) for x in b.succ(sb)):
+                    continue
+                # what the test reads itself: results of calls are taken as they are (the draw target's verdict is the verdict,
+                # whatever force flag it was asked with)
+                sl = b.slice_switch(sb, stop_at_calls=REFUSALS)
+                book = sorted({"%s.%s" % (a.rsplit("::", 1)[-1], f) for a, f in sl.fields() if a in BOOKKEEPING_ADTS and f not in ("draw_target",)} |
+                              {k.path for k in sl.calls if k.callee.get("local") and not k.matches(*REFUSALS) and
+                               k.path.startswith(("multi::MultiState::", "state::BarState::", "state::ProgressState::"))})
+                if book:
+                    why += book
+                elif any(k.matches(*REFUSALS) for k in sl.calls) or sl.has_field("draw_target"):
+                    refused = True
+            ok = attempted or (refused and not why) or (not why and not b.switches())
+            if not attempted and not refused and not why:
+                ok = True       # an unconditional Ok (nothing to attempt: e.g. a no-op implementation)
+            ctx.check(ok, rule, "ok#%d:%s" % (sum(1 for i2, j2, s2 in b.assigns() if (i2, j2) < (i, j) and s2["rv"].get("variant") == "Ok" and s2["rv"].get("adt") == "std::result::Result"),
+                                                K.meth(K.owner_fn(crate, b))), b.name, "%s:%d" % (b.file, st.get("line", 0)),
+                      "an Ok(()) of its own is returned after an attempted terminal operation, or because the draw target refused",
+                      "%s answers Ok(()) without having attempted any terminal operation because of the library's own bookkeeping (%s): after a failed draw that bookkeeping "
+                      "is stale - the call reports success on a dead terminal and skips work the screen still needs" % (K.meth(b.name), ", ".join(why[:4]) or "?"), cfg)
+    ctx.floor(rule, n, 4, cfg, "Ok(()) values produced by io::Result-returning library functions")
 
 
 def rule_io_no_retry(ctx, crate, rule="R-IO-NO-RETRY"):
